@@ -170,7 +170,9 @@ fn slice_main(args: &Args) -> i32 {
         lim.rlim_cur = if lim.rlim_max == libc::RLIM_INFINITY { want } else { want.min(lim.rlim_max) };
         libc::setrlimit(libc::RLIMIT_AS, &lim);
     }
-    core::start_heartbeat();
+    // Only where scenarios can be slow and advancing (millions of calls). Elsewhere the process stays single-threaded:
+    // an extra thread's stack changes what lies next to a mapping, and with it how memory errors show.
+    if prop == "C20" { core::start_heartbeat(); }
     let out = std::io::stdout();
     let mut r = WorkerResult::default();
     let mut since = Instant::now();
